@@ -340,7 +340,18 @@ def rewrite(m, src, util_src, registries, counts):
         if not arg.startswith('&mut'):
             src = src[:b + 1] + '&mut (' + arg + ')' + src[e:]
         pos = b + 1
-    src = cnt('R4', "text.trim() != text", "crate::vprelude::str_ne_string(text.trim(), text)", src)
+    # (either operand order, `!=` or `==`: str/String comparison is content comparison)
+    src = cnt('R4', r"\b(\w+)\.trim\(\)\s*!=\s*(\w+)\b(?![.(])", r"crate::vprelude::str_ne_string(\1.trim(), \2)", src, regex=True)
+    src = cnt('R4', r"\b(\w+)\s*!=\s*(\w+)\.trim\(\)", r"crate::vprelude::str_ne_string(\1, \2.trim())", src, regex=True)
+    src = cnt('R4', r"\b(\w+)\.trim\(\)\s*==\s*(\w+)\b(?![.(])", r"!crate::vprelude::str_ne_string(\1.trim(), \2)", src, regex=True)
+    src = cnt('R4', r"\b(\w+)\s*==\s*(\w+)\.trim\(\)", r"!crate::vprelude::str_ne_string(\1, \2.trim())", src, regex=True)
+    # R12: a reference type in a `const` / `static` item has the elided lifetime 'static; Verus wants it written
+    def r12(mm):
+        ty = re.sub(r"&(?!\s*')", "&'static ", mm.group(3))
+        if ty != mm.group(3):
+            counts['R12'] += 1
+        return mm.group(1) + mm.group(2) + ty + mm.group(4)
+    src = re.sub(r"(\b(?:const|static)\s+[A-Z][A-Z0-9_]*\s*:)(\s*)([^=;]*?)(\s*=)", r12, src)
     src = cnt('R4', r"(\w+)\.matches\('/'\)\.count\(\)", r"crate::vprelude::str_count_matches(&\1, '/')", src, regex=True)
 
     def cr(mm):
@@ -1000,7 +1011,7 @@ def generate(repo=REPO, contracts_dir=None, with_contracts=True, degrade=()):
         path = os.path.join(repo, 'src', m, 'mod.rs')
         src = open(path).read()
         info['inputs']['src/%s/mod.rs' % m] = sha(src)
-        counts = {k: 0 for k in ['R1', 'R2', 'R3', 'R4', 'R5', 'R6', 'R7', 'R8', 'R9', 'R10', 'R11']}
+        counts = {k: 0 for k in ['R1', 'R2', 'R3', 'R4', 'R5', 'R6', 'R7', 'R8', 'R9', 'R10', 'R11', 'R12']}
         c = rewrite(m, src, util_src, registries, counts)
         info['rewrites'][m] = counts
         plain[m] = c
@@ -1080,7 +1091,7 @@ if __name__ == '__main__':
         util_src = open(os.path.join(REPO, 'src/util/mod.rs')).read()
         regs = []
         for m in MODS:
-            counts = {k: 0 for k in ['R1', 'R2', 'R3', 'R4', 'R5', 'R6', 'R7', 'R8', 'R9', 'R10', 'R11']}
+            counts = {k: 0 for k in ['R1', 'R2', 'R3', 'R4', 'R5', 'R6', 'R7', 'R8', 'R9', 'R10', 'R11', 'R12']}
             c = rewrite(m, open(os.path.join(REPO, 'src', m, 'mod.rs')).read(), util_src, regs, counts)
             side = os.path.join(VERIF, 'contracts', m + '.rs')
             g, mi = merge(open(side).read(), c, m)
